@@ -2,6 +2,7 @@ import ActixModel.Proofs.H1Decode
 import ActixModel.Proofs.H1Conn
 import ActixModel.Proofs.H1Framing
 import ActixModel.Proofs.H1ChunkedSound
+import ActixModel.Proofs.H1Pipeline
 /-
 C01 — HTTP/1 request framing is unambiguous and independent of TCP segmentation.
 
@@ -344,6 +345,29 @@ theorem C01_roundtrip_length (body rest : Bytes) (hb : body ≠ []) :
   rw [e] at h1 h2
   rw [h1, h2, runSt_append, hw, r1, r2]
   simp [norm]
+
+/-- **C01_roundtrip.**  For every pipeline of messages — each a head whose tokenisation and
+framing are (`head`, `pt`), followed by no body / a Length body / any valid chunked wire form, as
+`pt` asks — and any following bytes: the decoder delivers exactly these messages (head, exact
+body bytes, `Eof`), in order, and then treats the following bytes as the next head.  With
+`C01_codec_segmentation` this holds for every segmentation. -/
+theorem C01_roundtrip (ms : List WMsg) (hms : ∀ m ∈ ms, m.Valid) (rest : Bytes) :
+    flat (feed {} ((ms.map WMsg.bytes).flatten ++ rest)).1 =
+      (ms.map WMsg.events).flatten ++ flat (feed {} rest).1 ∧
+    (feed {} ((ms.map WMsg.bytes).flatten ++ rest)).2 = (feed {} rest).2 := by
+  obtain ⟨h1, h2⟩ := feed_init_flat ((ms.map WMsg.bytes).flatten ++ rest)
+  obtain ⟨r1, r2⟩ := feed_init_flat rest
+  rw [h1, h2, run_pipeline ms hms rest, r1, r2]
+  exact ⟨rfl, rfl⟩
+
+/-- a valid message exists: `POST / HTTP/1.1` + `Content-Length: 2` + `hi` -/
+example : WMsg.Valid
+    { hb := [80,79,83,84,32,47,32,72,84,84,80,47,49,46,49,13,10,
+        67,111,110,116,101,110,116,45,76,101,110,103,116,104,58,32,50,13,10,13,10],
+      head := { method := bPOST, target := [47], version := 1, headers := [(bContentLength, [50])] },
+      pt := .payload (.length 2),
+      body := .length [104, 105] } := by
+  refine ⟨by decide, by rfl, by simp [WBody.Matches]⟩
 
 /-- **C01_sound_chunked_strict** (the full strict statement; false before the F12 fix).
 Whenever the decoder reports the end of a chunked body, the bytes it consumed are the wire form
